@@ -104,17 +104,19 @@ class Value:
             self._value = value
 
         def update(o, v):
+            # the flags only ever go up: a nested value that has no result yet (or
+            # no error) takes nothing away from what the other handlers produced
             if isinstance(v, Value):
-                o.errors = v.errors
-                o.result = v.result
+                o.errors = o.errors or v.errors
+                o.result = o.result or v.result
             elif v is not None:
                 o.result = True
 
                 o.inform()
 
             if o.parent is not o:
-                o.parent.errors = o.errors
-                o.parent.result = o.result
+                o.parent.errors = o.parent.errors or o.errors
+                o.parent.result = o.parent.result or o.result
                 update(o.parent, v)
 
         update(self, value)
